@@ -1,9 +1,10 @@
 //! C13 bounded: Mesh::section / Mesh::split on the REAL code (parry's plane intersection, chained_indices,
 //! Curve3::from_points included) against a brute-force oracle.
-//! Meshes (watertight, convex): box 2x3x4, prism (triangle (0,0),(4,0),(0,3) extruded by 2), tetrahedron with legs 4;
+//! Meshes (watertight): box 2x3x4, prism (triangle (0,0),(4,0),(0,3) extruded by 2), tetrahedron with legs 4 (convex) and an
+//! L-shaped prism (non-convex: one curve per connected chain of crossing segments, up to two loops);
 //! poses: identity, translation (1,-2,3), quarter turn about z + translation, third turn about (1,1,1).  Planes: 16
 //! normals (6 axis-aligned, the 4 sign patterns of (1,1,1), (1,2,2)/3, (2,-3,6)/7, (1,-1,0.2), (-3,1,-2), (0,1,1),
-//! (1,0,-2)) x offsets: 0.5 outside either end of the mesh's extent along the normal (miss), odd sixteenths of the
+//! (1,0,-2), (1,1,0)) x offsets: 0.5 outside either end of the mesh's extent along the normal (miss), odd sixteenths of the
 //! extent, 0.25 and 2^-12 inside either end (single corners cut off: 3-segment loops, segments shorter than 1e-3).
 //! Planes with a mesh vertex closer than 1e-5 are skipped ("through vertices avoided by a margin").
 //! Only watertight meshes are sectioned in the main loop: parry 0.18's intersection_with_local_plane does not terminate
@@ -89,17 +90,33 @@ fn moved(m: &Mesh, t: &Iso3) -> Mesh { let mut c = m.clone(); c.transform(t); c 
 fn moved_plane(n: &Vector3, d: f64, t: &Iso3) -> (Vector3, f64) { let n2 = t.rotation * n; (n2, d + n2.dot(&t.translation.vector)) }
 fn plane(n: &Vector3, d: f64) -> Plane3 { Plane3::new(UnitVec3::new_unchecked(*n), d) }
 
-fn check_section(r: &mut Report, name: &str, m: &Mesh, n: &Vector3, d: f64, commute: &[(&str, Iso3)]) {
+fn check_section(r: &mut Report, name: &str, m: &Mesh, convex: bool, n: &Vector3, d: f64, commute: &[(&str, Iso3)]) -> usize {
     let v = m.vertices().to_vec();
     let f = m.faces().to_vec();
     let desc = || format!("{} plane normal ({:?}, {:?}, {:?}) d {:?}", name, n.x, n.y, n.z, d);
     let o = oracle(&v, &f, n, d);
     r.case();
-    let curves: Vec<Curve3> = match m.section(&plane(n, d), None) { Ok(c) => c, Err(_) => { r.check(false, "section: returns Ok", desc); return; } };
+    let curves: Vec<Curve3> = match m.section(&plane(n, d), None) { Ok(c) => c, Err(_) => { r.check(false, "section: returns Ok", desc); return 0; } };
     if o.segs.is_empty() {
         r.check(curves.is_empty(), "section: a plane that misses the mesh yields no curve", desc);
-    } else {
+    } else if convex {
         r.check(curves.len() == 1, "section: a convex solid crossed by the plane yields exactly one loop", desc);
+    } else {
+        // connected components of the crossing segments (joined at shared crossing points)
+        let ns = o.segs.len();
+        let mut comp: Vec<usize> = (0..ns).collect();
+        loop {
+            let mut changed = false;
+            for i in 0..ns { for j in 0..ns {
+                let (a, b) = (&o.segs[i], &o.segs[j]);
+                if comp[i] != comp[j] && (peq(&a.1, &b.1) || peq(&a.1, &b.2) || peq(&a.2, &b.1) || peq(&a.2, &b.2)) {
+                    let c = comp[i].min(comp[j]); comp[i] = c; comp[j] = c; changed = true;
+                }
+            } }
+            if !changed { break; }
+        }
+        let mut ids = comp.clone(); ids.sort(); ids.dedup();
+        r.check(curves.len() == ids.len(), "section: one curve per connected chain of crossing segments", desc);
     }
     let mut used = vec![0usize; f.len()];
     let mut nseg = 0;
@@ -120,24 +137,29 @@ fn check_section(r: &mut Report, name: &str, m: &Mesh, n: &Vector3, d: f64, comm
         r.check(peq(&p[0], &p[p.len() - 1]) && p.len() >= 4, "section: every section curve of a watertight mesh is closed", desc);
     }
     r.check(o.segs.iter().all(|(k, _, _)| used[*k] == 1) && nseg == o.segs.len(), "section: each plane-face crossing segment is used exactly once", desc);
-    if curves.len() == 1 {
+    if convex && curves.len() == 1 {
         r.check(eq(curves[0].length(), o.perimeter), "section: the loop of a convex solid has the analytic perimeter of the cross-section", desc);
     }
+    let total: f64 = curves.iter().map(|c| c.length()).sum();
+    let want: f64 = o.segs.iter().map(|(_, a, b)| (a - b).norm()).sum();
+    r.check(eq(total, want), "section: the total length of the curves is the total length of the crossing segments", desc);
     // commutation with rigid motion of mesh and plane together
     for (tn, t) in commute.iter() {
         let dc = || format!("{} moved by {}", desc(), tn);
         let (n2, d2) = moved_plane(n, d, t);
         let c2 = match moved(m, t).section(&plane(&n2, d2), None) { Ok(c) => c, Err(_) => { r.check(false, "section: returns Ok", dc); continue; } };
+        // the loops may come in another order: every loop has a partner with the same vertex count, length and vertices
         let mut same = c2.len() == curves.len();
         if same {
-            for (a, b) in curves.iter().zip(c2.iter()) {
-                same &= a.points().len() == b.points().len() && eq(a.length(), b.length());
-                same &= a.points().iter().all(|x| b.points().iter().any(|y| peq(&(t * x), y)));
-                same &= b.points().iter().all(|y| a.points().iter().any(|x| peq(&(t * x), y)));
+            for a in curves.iter() {
+                same &= c2.iter().any(|b| a.points().len() == b.points().len() && eq(a.length(), b.length())
+                    && a.points().iter().all(|x| b.points().iter().any(|y| peq(&(t * x), y)))
+                    && b.points().iter().all(|y| a.points().iter().any(|x| peq(&(t * x), y))));
             }
         }
         r.check(same, "section: commutes with rigid motion of mesh and plane together (same loops, vertex for vertex)", dc);
     }
+    curves.len()
 }
 
 fn check_split(r: &mut Report, name: &str, m: &Mesh, n: &Vector3, d: f64) {
@@ -174,17 +196,25 @@ fn check_split(r: &mut Report, name: &str, m: &Mesh, n: &Vector3, d: f64) {
     }
 }
 
-fn base_meshes() -> Vec<(&'static str, Mesh)> {
+fn base_meshes() -> Vec<(&'static str, Mesh, bool)> {
     let p = |x: f64, y: f64, z: f64| Point3::new(x, y, z);
     let prism = Mesh::new(
         vec![p(0.0, 0.0, 0.0), p(4.0, 0.0, 0.0), p(0.0, 3.0, 0.0), p(0.0, 0.0, 2.0), p(4.0, 0.0, 2.0), p(0.0, 3.0, 2.0)],
         vec![[0, 2, 1], [3, 4, 5], [0, 1, 4], [0, 4, 3], [1, 2, 5], [1, 5, 4], [2, 0, 3], [2, 3, 5]], true);
     let tet = Mesh::new(vec![p(0.0, 0.0, 0.0), p(4.0, 0.0, 0.0), p(0.0, 4.0, 0.0), p(0.0, 0.0, 4.0)], vec![[0, 2, 1], [0, 1, 3], [0, 3, 2], [1, 2, 3]], true);
-    vec![("box 2x3x4", Mesh::create_box(2.0, 3.0, 4.0, true)), ("prism (0,0),(4,0),(0,3) x 2", prism), ("tetrahedron legs 4", tet)]
+    // non-convex watertight: L-shaped outline (0,0),(4,0),(4,1),(1,1),(1,3),(0,3) extruded by 2 (sections with two loops)
+    let ol = [(0.0, 0.0), (4.0, 0.0), (4.0, 1.0), (1.0, 1.0), (1.0, 3.0), (0.0, 3.0)];
+    let mut lv: Vec<Point3> = ol.iter().map(|(x, y)| p(*x, *y, 0.0)).collect();
+    lv.extend(ol.iter().map(|(x, y)| p(*x, *y, 2.0)));
+    let mut lf: Vec<[u32; 3]> = vec![[0, 3, 1], [1, 3, 2], [0, 5, 3], [3, 5, 4], [6, 7, 9], [7, 8, 9], [6, 9, 11], [9, 10, 11]];
+    for i in 0..6u32 { let j = (i + 1) % 6; lf.push([i, j, j + 6]); lf.push([i, j + 6, i + 6]); }
+    let lprism = Mesh::new(lv, lf, true);
+    vec![("box 2x3x4", Mesh::create_box(2.0, 3.0, 4.0, true), true), ("prism (0,0),(4,0),(0,3) x 2", prism, true), ("tetrahedron legs 4", tet, true),
+         ("L-shaped prism (0,0),(4,0),(4,1),(1,1),(1,3),(0,3) x 2 (non-convex)", lprism, false)]
 }
 
 pub fn run() -> Option<Report> {
-    let mut r = Report::new("watertight convex meshes: box 2x3x4, triangular prism, tetrahedron, in 4 poses (identity, translation, quarter turn about z + translation, third turn about (1,1,1)); planes: 16 normals (axis-aligned, all sign patterns of (1,1,1), (1,2,2)/3, (2,-3,6)/7, mixed-sign oblique ones) x offsets missing the mesh by 0.5, odd sixteenths of the extent, 0.25 and 2^-12 inside either end (single corners cut off, segments shorter than 1e-3); planes with a mesh vertex closer than 1e-5 skipped; section additionally compared after 4 further rigid motions (cube group + integer translations); split additionally on an open two-triangle strip; tolerance 1e-9 relative");
+    let mut r = Report::new("watertight meshes: box 2x3x4, triangular prism, tetrahedron (convex) and an L-shaped prism (non-convex, sections with two loops), in 4 poses (identity, translation, quarter turn about z + translation, third turn about (1,1,1)); planes: 17 normals (axis-aligned, all sign patterns of (1,1,1), (1,2,2)/3, (2,-3,6)/7, mixed-sign oblique ones) x offsets missing the mesh by 0.5, odd sixteenths of the extent, 0.25 and 2^-12 inside either end (single corners cut off, segments shorter than 1e-3); planes with a mesh vertex closer than 1e-5 skipped; section additionally compared after 4 further rigid motions (cube group + integer translations); split additionally on an open two-triangle strip; tolerance 1e-9 relative");
     let q = |ax: Vector3, ang: f64| UnitQuaternion::from_axis_angle(&UnitVec3::new_normalize(ax), ang);
     let poses: Vec<(&str, Iso3)> = vec![
         ("identity", Iso3::identity()),
@@ -203,10 +233,11 @@ pub fn run() -> Option<Report> {
         nv(1.0, 0.0, 0.0), nv(-1.0, 0.0, 0.0), nv(0.0, 1.0, 0.0), nv(0.0, -1.0, 0.0), nv(0.0, 0.0, 1.0), nv(0.0, 0.0, -1.0),
         nv(1.0, 1.0, 1.0), nv(1.0, -1.0, 1.0), nv(-1.0, 1.0, 1.0), nv(1.0, 1.0, -1.0),
         Vector3::new(1.0, 2.0, 2.0) / 3.0, Vector3::new(2.0, -3.0, 6.0) / 7.0,
-        nv(1.0, -1.0, 0.2), nv(-3.0, 1.0, -2.0), nv(0.0, 1.0, 1.0), nv(1.0, 0.0, -2.0),
+        nv(1.0, -1.0, 0.2), nv(-3.0, 1.0, -2.0), nv(0.0, 1.0, 1.0), nv(1.0, 0.0, -2.0), nv(1.0, 1.0, 0.0),
     ];
     let thin = 1.0 / 4096.0;
-    for (mname, base) in base_meshes().iter() {
+    let (mut two_loops, mut three_seg) = (0usize, 0usize);
+    for (mname, base, convex) in base_meshes().iter() {
         for (pname, pose) in poses.iter() {
             let m = moved(base, pose);
             let name = format!("{} in pose {}", mname, pname);
@@ -218,12 +249,15 @@ pub fn run() -> Option<Report> {
                 for k in [1.0, 3.0, 5.0, 7.0, 9.0, 11.0, 13.0, 15.0] { offs.push(lo + (hi - lo) * k / 16.0); }
                 for d in offs {
                     if s.iter().any(|x| (x - d).abs() < 1e-5) { continue; }
-                    check_section(&mut r, &name, &m, n, d, &commute);
+                    let k = check_section(&mut r, &name, &m, *convex, n, d, &commute);
+                    if k == 2 { two_loops += 1; }
+                    if k == 1 && (d - lo - thin).abs() < 1e-12 { three_seg += 1; }
                     check_split(&mut r, &name, &m, n, d);
                 }
             }
         }
     }
+    r.check(two_loops >= 8 && three_seg >= 8, "coverage: the input space contains two-loop sections and thin corner cuts", || format!("two-loop sections {}, thin cuts {}", two_loops, three_seg));
     // split of an open mesh (section is NOT run on open meshes, see the header)
     let p = |x: f64, y: f64, z: f64| Point3::new(x, y, z);
     let strip = Mesh::new(vec![p(0.0, 0.0, 0.0), p(2.0, 0.0, 0.0), p(0.0, 2.0, 0.0), p(2.0, 2.0, 1.0)], vec![[0, 1, 2], [1, 3, 2]], false);
